@@ -80,3 +80,23 @@ Proof.
   intros Hg Hp. pose proof pipeline_globals_ok as H.
   rewrite forallb_forall in H. apply H. unfold pipeline_globals. apply filter_In. split; assumption.
 Qed.
+
+(* non-vacuity: the table contains what one expects *)
+Lemma table_contents :
+  In (mkGvar "types" "PolarityMap" "map[Polarity]string" GMap IComposite true) globals /\
+  In (mkGvar "process" "RuleString" "map[Rule]string" GMap IComposite true) globals /\
+  In (mkGvar "parser" "gritsDebug" "int" GScalar ILiteral true) globals /\
+  In (mkGvar "parser" "gritsErrorVerbose" "bool" GScalar IIdent true) globals /\
+  (forall t, In t ["gritsExca"; "gritsAct"; "gritsPact"; "gritsPgo"; "gritsR1"; "gritsR2"; "gritsChk"; "gritsDef";
+                   "gritsTok1"; "gritsTok2"; "gritsTok3"; "gritsToknames"] ->
+     existsb (fun g => String.eqb (g_pkg g) "parser" && String.eqb (g_name g) t &&
+                       match g_kind g with GArray => true | _ => false end) globals = true /\
+     existsb (fun u => String.eqb (u_var u) t && match u_kind u with UIndexRead => true | _ => false end) global_uses = true) /\
+  existsb (fun u => String.eqb (u_var u) "PolarityMap" && String.eqb (u_fn u) "Name.String" &&
+                    match u_kind u with UIndexRead => true | _ => false end) global_uses = true /\
+  20 <= length pipeline_globals /\ 50 <= length pipeline_uses.
+Proof.
+  repeat split; try (vm_compute; tauto); try (apply Nat.leb_le; vm_compute; reflexivity).
+  - destruct H as [<-|[<-|[<-|[<-|[<-|[<-|[<-|[<-|[<-|[<-|[<-|[<-|[]]]]]]]]]]]]]; vm_compute; reflexivity.
+  - destruct H as [<-|[<-|[<-|[<-|[<-|[<-|[<-|[<-|[<-|[<-|[<-|[<-|[]]]]]]]]]]]]]; vm_compute; reflexivity.
+Qed.
